@@ -151,7 +151,13 @@ def fetch_wmsc(app, g, wc, a):
     lv, cells, bg = L.decode_cells(g, app.image(resp))
     if len(cells) != g['tw'] * g['th'] or len(lv) != 1:
         return 200, None
-    return 200, L.cells_rect(g, list(lv)[0], cells)
+    rect = L.cells_rect(g, list(lv)[0], cells)
+    # all pixels must form the regular raster of that rectangle (as in fetch)
+    r0 = g['res'][list(lv)[0]]
+    for (i, j), (cx, cy) in cells.items():
+        if abs(g['bbox'][0] + cx * r0 - (rect[0] + i * r0)) > 1e-6 * r0 or abs(g['bbox'][1] + (cy + 1) * r0 - (rect[3] - j * r0)) > 1e-6 * r0:
+            return 200, 'scrambled'
+    return 200, rect
 
 
 def fetch(app, g, f, a, k, code='EPSG3857'):
@@ -221,7 +227,12 @@ def exercise(ctx, label, name, g, app, cov, thorough, code='EPSG3857', latlon=Fa
             for a in coords:
                 status, rect = fetch_wmsc(app, g, wc, a)
                 ctx.count((label, 'wmsc', a))
-                if rect is not None:
+                if rect == 'scrambled' and cov is not None:
+                    continue          # clipped, slightly stretched sub-request at a coverage edge (see below)
+                if rect == 'scrambled':
+                    ctx.violation({'kind': 'tile-content', 'grid': name, 'flavour': 'wmsc'},
+                                  '%s: wmsc %s returned pixels that are not a regular raster of one rectangle' % (label, a), None)
+                elif rect is not None:
                     tiles.append({'f': 'wmsc', 'a': list(a), 'rect': [int(round(v)) for v in rect]})
                 elif status != 200:
                     refused.append({'f': 'wmsc', 'a': list(a), 'status': status})
@@ -343,7 +354,7 @@ def run(ctx):
     thorough = ctx.tier == 'thorough'
     tlc.sany(SPEC)
     names = ['G2', 'G2ul', 'Gpart', 'Gpartul', 'Gneg', 'Grect', 'Grectul', 'G15', 'Gcust', 'Gunal', 'Gunalul', 'G1'] if thorough else \
-            ['G2', 'G2ul', 'Gpartul', 'Gneg', 'Grect', 'Grectul', 'Gunal', 'G1']
+            ['G2', 'G2ul', 'Gpartul', 'Gneg', 'Grect', 'Grectul', 'Gunal', 'G1', 'Gcust']
     for name in names:
         g = L.spec_grid(name)
         bx0, by0, bx1, by1 = g['bbox']
